@@ -479,6 +479,7 @@ def run(chk):
     # changes the circuit that is returned
     warn_cases = {
         "nothing to report": (module_text(["a", "b"], ["o"], ["w"], ["and g0(w, a, b);", "assign o = ~w;"]), [], False),
+        "nothing to report, all three constants in use": (module_text(["a", "b"], ["o", "p", "q"], [], ["assign o = a & 1'bx;", "assign p = b | 1'b0;", "assign q = a ^ 1'b1;"]), [], False),
         "an unused input": (module_text(["a", "b", "spare"], ["o"], [], ["assign o = a & b;"]), [], True),
         "a wire that drives nothing": (module_text(["a", "b"], ["o"], ["w", "dead"], ["and g0(w, a, b);", "or g1(dead, a, w);", "assign o = w;"]), [], True),
         "a wire without a driver": (module_text(["a"], ["o"], ["float"], ["and g0(o, a, float);"]), [], True),
